@@ -19,19 +19,45 @@ from . import c20_master
 from . import c20_sched
 
 PID  = 'C20'
-RULE = ('(c) cases = 1-3 requests dispatched one after the other on one hollow worker, each a '
-        'payload program (print / set+delete+read env / replace stream / raise / return) rendered '
-        'for its task mode; non-trivial = a payload that prints and (raises or changes the '
-        'environment); distinct = canonical (mode, environment, program) list')
+RULE = ('four kinds of cases, all plain data. '
+        '(c) dispatch: 1-4 requests dispatched one after the other on one hollow worker, each a '
+        'payload program (print / set, delete, read env at os.environ and at process level / replace '
+        'a stream / raise / return a value) rendered for its mode (function by name, keyword, async, '
+        'PythonTask in 3 forms, eval, exec, proc, shell); non-trivial = some payload prints and '
+        '(raises or changes the environment). '
+        '(a) worker: a DefaultWorker of 1-8 cores x 0-4 GPUs, 1-10 requests with demands <= size and '
+        'a scripted outcome (ok, raise, hang->timeout, late completion at the timeout boundary, '
+        'unknown mode, spawn failure, process death), ops (deliver a bulk / run a pending process / '
+        'step the result watcher) plus a schedule used whenever _request_cb has to wait for '
+        'resources; non-trivial = >= 2 requests held resources at the same time and one of them did '
+        'not succeed. '
+        '(b) master: 1-10 requests of every mode arriving through submit_tasks (descriptions or '
+        'dicts), from the scheduler, or through the run_task service; results with exit code 0 / '
+        'non-zero / missing delivered in generated order and bulks; non-trivial = executable and '
+        'function-like requests, >= 2 exit code classes, >= 2 results. '
+        '(b2) sched: task bulks with raptor_id none / master k / "*", raptor queue registration and '
+        'un-registration in generated order, hollow masters behind the queues; non-trivial = a '
+        'forwarded, a locally scheduled and a backlogged-or-failed task in one history. '
+        'distinct = canonical form of the whole case')
 ASSUMPTIONS = [
-    'Worker / DefaultWorker / Master are built hollow (constructor fields copied; no registry, '
-    'pubsub, heartbeat or watcher threads); mode table filled through the real register_mode',
+    'Worker / DefaultWorker / Master / AgentSchedulingComponent are built hollow (constructor and '
+    'initialize() fields copied; no registry, zmq, heartbeat, watcher threads, forked processes); '
+    'the mode table is filled through the real register_mode',
+    'multiprocessing of worker_default is replaced by fakes: a child process is "when its target '
+    'runs" (harness-chosen) plus what join / is_alive / terminate report; queues copy by pickle; '
+    'the forked children see a private os.environ / pid / cwd',
+    'the scheduler of part (b2) grants every placement (placement itself is C01-C04)',
+    'transport = in-memory queues / pubsub with msgpack round trip, delivered synchronously',
     'radical.utils.get_version shim (src/radical/pilot/VERSION absent in this tree)',
-    'proc / shell requests spawn a real /bin/sh',
-    'process-level environment observed through libc getenv (ctypes)']
+    'proc / shell requests spawn a real /bin/sh; process-level environment is read through libc '
+    'getenv (ctypes)']
 NOT_REACHED = ['MPI workers (worker_mpi.py): need mpi4py and an MPI launcher',
-               'payloads ending in BaseException (SystemExit, KeyboardInterrupt): outside the '
-               'quantifier "return, print, raise, or modify the environment"']
+               'TASK_METH requests: TaskDescription has no "method" attribute, so no verified '
+               'description can reach Worker._dispatch_meth',
+               'payloads ending in KeyboardInterrupt; real signals; real races between the request '
+               'callback thread and the result watcher other than at the wait-for-resources point',
+               'heartbeat / worker registration logic of master and worker']
+BUDGET = {'quick': 150, 'thorough': 1200}
 
 ENV_KEYS = c20_disp.ENV_KEYS + ['C20_T']
 
